@@ -185,6 +185,7 @@ int main(int argc, char** argv) {
         auto games = readGames(argv[3]);
         std::ofstream os(argv[4]);
         int per = atoi(argv[5]);
+        const bool pairsOnly = argc > 6 && std::string(argv[6]) == "kingpairs";     // only the deadlock-rule pairs (many games, few samples)
         os << "{\"e\":\"Meta\",\"check\":\"C16\"}\n";
         Random rnd(seed, 0xB16);
         long n = 0;
@@ -199,13 +200,38 @@ int main(int argc, char** argv) {
             for (size_t i = 0; i < g.size(); i++) {
                 int pc = ps[i].getPiece(g[i].from());
                 bool pawn = pc == Piece::WPAWN || pc == Piece::BPAWN;
-                if ((pawn && g[i].to() == ps[i].getEpSquare()) || g[i].promoteTo() != Piece::EMPTY ||
-                    ((pc == Piece::WKING || pc == Piece::BKING) && std::abs(g[i].to().asInt() - g[i].from().asInt()) == 2))
+                bool kingMv = pc == Piece::WKING || pc == Piece::BKING;
+                bool tightKing = false;       // a king that has to move and has at most two squares to go to (deadlock rules look at exactly that)
+                if (kingMv) {
+                    Position tmp(ps[i]);
+                    MoveList kl; legalMoves(tmp, kl);
+                    int nk = 0;
+                    for (int q = 0; q < kl.size; q++) if (kl[q].from() == g[i].from()) nk++;
+                    tightKing = nk <= 2;
+                }
+                if ((pawn && g[i].to() == ps[i].getEpSquare()) || g[i].promoteTo() != Piece::EMPTY || tightKing ||
+                    (kingMv && std::abs(g[i].to().asInt() - g[i].from().asInt()) == 2))
                     special.push_back((int)i);
             }
-            const int nSpecial = std::min<int>((int)special.size(), 6) * 2;
-            const int nNear = per / 2;      // goals a few plies ahead: usually no capture in between, so the no-capture-left rules (deadlocks) apply
-            for (int k = 0; k < per + nSpecial + nNear; k++) {
+            const int nSpecial = std::min<int>((int)special.size(), 10) * 2;
+            // pairs for the deadlock rules: a king that has no free square right now (every neighbour occupied or attacked by an enemy pawn),
+            // moves a little later, and nothing is captured in between (those rules only apply when no capture is left)
+            std::vector<std::pair<int,int>> kingPairs;
+            for (int c = 0; c < 2; c++) {
+                for (size_t i = 0; i + 1 < ps.size() && kingPairs.size() < 24; i++) {
+                    const Position& q = ps[i];
+                    Square k = c == 0 ? q.wKingSq() : q.bKingSq();
+                    U64 free = BitBoard::kingAttacks(k) & ~q.occupiedBB();
+                    free &= c == 0 ? ~BitBoard::bPawnAttacksMask(q.pieceTypeBB(Piece::BPAWN)) : ~BitBoard::wPawnAttacksMask(q.pieceTypeBB(Piece::WPAWN));
+                    if (free != 0) continue;
+                    for (size_t m = i; m < g.size() && m < i + 16; m++) {
+                        if (ps[m + 1].nPieces() != q.nPieces()) break;                    // a capture: rules not applicable
+                        if (g[m].from() == (c == 0 ? ps[m].wKingSq() : ps[m].bKingSq())) { kingPairs.push_back({(int)i, (int)m + 1}); break; }
+                    }
+                }
+            }
+            const int nNear = per / 2 + (int)kingPairs.size();      // goals a few plies ahead: usually no capture in between, so the no-capture-left rules (deadlocks) apply
+            for (int k = pairsOnly ? per + nSpecial + per / 2 : 0; k < per + nSpecial + nNear; k++) {
                 // the goal is the final position of the game or of one of its prefixes (itself a legal game from the initial position)
                 int j = (k < 2 || rnd.nextInt(2) == 0) ? (int)g.size() : 1 + rnd.nextInt((int)g.size());
                 int i = rnd.nextInt(j + 1);
@@ -214,6 +240,8 @@ int main(int argc, char** argv) {
                 if (k >= per + nSpecial) {
                     i = rnd.nextInt((int)g.size());
                     j = std::min<int>((int)g.size(), i + 1 + rnd.nextInt(4));
+                    int kp = k - (per + nSpecial) - per / 2;
+                    if (kp >= 0 && kp < (int)kingPairs.size()) { i = kingPairs[kp].first; j = kingPairs[kp].second; }
                 } else if (k >= per) {              // start right before a special move; goal: shortly after it, or the end of the game
                     i = special[rnd.nextInt((int)special.size())];
                     j = ((k - per) & 1) ? (int)g.size() : std::min<int>((int)g.size(), i + 1 + rnd.nextInt(6));
